@@ -26,41 +26,41 @@ import (
 // that each entry still names a field (so a rename cannot make the rule vacuous) and that no method of the type
 // other than a constructor stores through it.
 var readonlyFields = map[string]string{
-	"multiparty.Combiner.one":            "Montgomery form of 1, the neutral element every GenAdditiveShare starts its Lagrange product from",
-	"multiparty.Combiner.lagrangeCoeffs": "per-party Lagrange factors computed by NewCombiner; reused by every GenAdditiveShare call",
-	"ring.SubRing.NTTTable":              "NTT twiddle factors (RootsForward/RootsBackward/NInv) generated once by generateNTTConstants",
-	"ring.SubRing.Factors":               "factorisation of Modulus-1, derived from the modulus",
-	"ring.SubRing.BRedConstant":          "Barrett constant of the modulus",
-	"ring.Ring.SubRings":                 "the chain of sub-rings; AtLevel copies the header and shares the slice",
-	"ring.Ring.ModulusAtLevel":           "products of the moduli per level, shared by every AtLevel view",
-	"ring.Ring.RescaleConstants":         "q_l^-1 mod q_i table used by DivRoundByLastModulus",
-	"ring.BasisExtender.constantsQtoP":   "precomputed basis-extension constants per level",
-	"ring.BasisExtender.constantsPtoQ":   "precomputed basis-extension constants per level",
-	"ring.BasisExtender.modDownConstantsPtoQ": "P^-1 mod q_i per level",
-	"ring.BasisExtender.modDownConstantsQtoP": "Q^-1 mod p_j per level",
-	"ring.Decomposer.ModUpConstants":     "gadget-decomposition basis-extension constants",
-	"ring.TernarySampler.matrixProba":    "probability matrix derived from the distribution parameter",
-	"ring.TernarySampler.matrixValues":   "{0,1,-1} in Montgomery form per modulus",
-	"schemes/ckks.Encoder.roots":         "2N-th roots of unity used by the encoding FFT",
-	"schemes/ckks.Encoder.rotGroup":      "powers of 5 mod 2N (slot permutation)",
-	"schemes/bgv.Encoder.indexMatrix":    "slot <-> coefficient permutation",
-	"schemes/bgv.Evaluator.tMontgomery":  "plaintext modulus in Montgomery RNS form (shared by ShallowCopy)",
-	"schemes/bgv.Evaluator.levelQMul":    "number of extension moduli per level for the BFV tensoring",
-	"schemes/bgv.Evaluator.pHalf":        "QMul/2 per level, used by the BFV quantisation (shared by ShallowCopy)",
-	"circuits/ckks/bootstrapping.Evaluator.xPow2N1":    "powers of X used by the ring-degree switch before bootstrapping",
-	"circuits/ckks/bootstrapping.Evaluator.xPow2N2":    "powers of X used by the ring-degree switch before bootstrapping",
-	"circuits/ckks/bootstrapping.Evaluator.xPow2InvN1": "inverse powers of X used by the ring-degree switch",
-	"circuits/ckks/bootstrapping.Evaluator.xPow2InvN2": "inverse powers of X used by the ring-degree switch",
+	"multiparty.Combiner.one":                           "Montgomery form of 1, the neutral element every GenAdditiveShare starts its Lagrange product from",
+	"multiparty.Combiner.lagrangeCoeffs":                "per-party Lagrange factors computed by NewCombiner; reused by every GenAdditiveShare call",
+	"ring.SubRing.NTTTable":                             "NTT twiddle factors (RootsForward/RootsBackward/NInv) generated once by generateNTTConstants",
+	"ring.SubRing.Factors":                              "factorisation of Modulus-1, derived from the modulus",
+	"ring.SubRing.BRedConstant":                         "Barrett constant of the modulus",
+	"ring.Ring.SubRings":                                "the chain of sub-rings; AtLevel copies the header and shares the slice",
+	"ring.Ring.ModulusAtLevel":                          "products of the moduli per level, shared by every AtLevel view",
+	"ring.Ring.RescaleConstants":                        "q_l^-1 mod q_i table used by DivRoundByLastModulus",
+	"ring.BasisExtender.constantsQtoP":                  "precomputed basis-extension constants per level",
+	"ring.BasisExtender.constantsPtoQ":                  "precomputed basis-extension constants per level",
+	"ring.BasisExtender.modDownConstantsPtoQ":           "P^-1 mod q_i per level",
+	"ring.BasisExtender.modDownConstantsQtoP":           "Q^-1 mod p_j per level",
+	"ring.Decomposer.ModUpConstants":                    "gadget-decomposition basis-extension constants",
+	"ring.TernarySampler.matrixProba":                   "probability matrix derived from the distribution parameter",
+	"ring.TernarySampler.matrixValues":                  "{0,1,-1} in Montgomery form per modulus",
+	"schemes/ckks.Encoder.roots":                        "2N-th roots of unity used by the encoding FFT",
+	"schemes/ckks.Encoder.rotGroup":                     "powers of 5 mod 2N (slot permutation)",
+	"schemes/bgv.Encoder.indexMatrix":                   "slot <-> coefficient permutation",
+	"schemes/bgv.Evaluator.tMontgomery":                 "plaintext modulus in Montgomery RNS form (shared by ShallowCopy)",
+	"schemes/bgv.Evaluator.levelQMul":                   "number of extension moduli per level for the BFV tensoring",
+	"schemes/bgv.Evaluator.pHalf":                       "QMul/2 per level, used by the BFV quantisation (shared by ShallowCopy)",
+	"circuits/ckks/bootstrapping.Evaluator.xPow2N1":     "powers of X used by the ring-degree switch before bootstrapping",
+	"circuits/ckks/bootstrapping.Evaluator.xPow2N2":     "powers of X used by the ring-degree switch before bootstrapping",
+	"circuits/ckks/bootstrapping.Evaluator.xPow2InvN1":  "inverse powers of X used by the ring-degree switch",
+	"circuits/ckks/bootstrapping.Evaluator.xPow2InvN2":  "inverse powers of X used by the ring-degree switch",
 	"core/rgsw/blindrot.Evaluator.galoisGenDiscreteLog": "discrete logarithms of the Galois generator, computed once",
 }
 
 // readonlyWriters: methods that are part of construction although their name does not say so.
 var readonlyWriters = map[string]string{
-	"ring.(Ring).ConjugateInvariantRing": "derived-ring constructor: fills the freshly allocated SubRings of the copy it returns",
-	"ring.(Ring).StandardRing":           "derived-ring constructor: fills the freshly allocated SubRings of the copy it returns",
-	"ring.(SubRing).generateNTTConstants": "called by NewSubRing/NewRing only; fills RootsForward/RootsBackward",
-	"ring.(Ring).generateNTTConstants":    "construction step of NewRing",
-	"ring.(TernarySampler).initializeMatrix":      "construction step of NewTernarySampler",
+	"ring.(Ring).ConjugateInvariantRing":         "derived-ring constructor: fills the freshly allocated SubRings of the copy it returns",
+	"ring.(Ring).StandardRing":                   "derived-ring constructor: fills the freshly allocated SubRings of the copy it returns",
+	"ring.(SubRing).generateNTTConstants":        "called by NewSubRing/NewRing only; fills RootsForward/RootsBackward",
+	"ring.(Ring).generateNTTConstants":           "construction step of NewRing",
+	"ring.(TernarySampler).initializeMatrix":     "construction step of NewTernarySampler",
 	"ring.(TernarySampler).computeMatrixTernary": "construction step of NewTernarySampler",
 }
 
@@ -206,7 +206,6 @@ func scanReadOnlyFixture(c *core.Ctx) []ob {
 	defer func() { readonlyFields = saved }()
 	return scanReadOnly(c)
 }
-
 
 // constructionOnly: functions all of whose (static) callers are constructors, documented construction steps, or
 // themselves construction-only. Extracting part of a constructor into a helper does not make the helper a mutator.
